@@ -268,8 +268,30 @@ const GAME_ROOTS: &[&str] = &[
     "7k/8/8/8/8/8/8/K7 b - - 0 1",
 ];
 
+/// scripted openings from the standard start that create unusual material early (three knights, two or three queens
+/// per side), so that random continuations meet the rarer short-notation forms
+const PREFIXES: &[&str] = &[
+    "h2h4 g7g5 h4g5 a7a6 g5g6 b7b6 g6h7 Bc8b7 h7g8=N Nb8c6 Nb1c3 d7d6 Nc3e4 Qd8d7 Ng1f3 O-O-O Nf3e5 Kc8b8 Ne5g4 a6a5",
+    "a2a4 b7b5 a4b5 h7h6 b5b6 g7g6 b6c7 Bf8g7 c7b8=Q Ng8f6 h2h4 g6g5 h4g5 O-O g5h6 a7a5 h6g7 a5a4 g7f8=Q Kg8h7",
+    "h2h4 a7a5 h4h5 a5a4 h5h6 a4a3 h6g7 a3b2 g7h8=N b2a1=N Nb1c3 Nb8c6 Ng1f3 Ng8f6",
+    "e2e4 d7d5 e4d5 c7c6 d5c6 Qd8c7 c6b7 Qc7c6 b7a8=Q Qc6a8 d2d4 e7e5 d4e5 f7f6 e5f6 g7f6",
+    "g2g4 h7h5 g4h5 g7g6 h5g6 Bf8h6 g6g7 Bh6f4 g7h8=R f7f5 Rh1h7 e7e6 Rh7g7 Ke8f8",
+];
+
 fn random_game(cx: &mut GameCx, d: &Desc, len: usize, p_proto: u64) {
+    random_game_from(cx, d, len, p_proto, None)
+}
+
+fn random_game_from(cx: &mut GameCx, d: &Desc, len: usize, p_proto: u64, prefix: Option<&str>) {
     let (mut id, mut g, std_start) = match cx.root(d) { Some(x) => x, None => return };
+    if let Some(pf) = prefix {
+        for t in pf.split(' ') {
+            let m = match BoardMove::from_str(t) { Ok(m) => m, Err(_) => break };
+            if !g.get_position().is_legal_move(&m) { break }
+            let (nid, g2, _) = cx.apply(&id, &g, &Action::MakeMove(m), false, std_start);
+            id = nid; g = g2;
+        }
+    }
     let mut seen: Vec<(Desc, BoardMove)> = vec![];
     let mut after_end = 0;
     for step in 0..len {
@@ -291,6 +313,13 @@ fn random_game(cx: &mut GameCx, d: &Desc, len: usize, p_proto: u64) {
                         if seen.iter().any(|x| x.0 == k) && cx.rng.chance(1, 2) { pick = Some(*m); break }
                     }
                 }
+            }
+            // a third of the time prefer a move whose short notation needs disambiguation
+            if pick.is_none() && cx.rng.chance(1, 3) {
+                let amb: Vec<BoardMove> = ms.iter().map(|x| x.1).filter(|m| match MovePropertiesOnBoard::new(m, &pos) {
+                    Ok(p) => !matches!(p.ambiguity_type, DisplayAmbiguityType::Neither) && !matches!(m, BoardMove::MovePiece(pm) if pm.get_piece_type() == PieceType::Pawn),
+                    Err(_) => false }).collect();
+                if !amb.is_empty() { pick = Some(amb[cx.rng.below(amb.len())]) }
             }
             Action::MakeMove(pick.unwrap_or_else(|| {
                 // prefer reversible moves so that repetitions occur
@@ -383,6 +412,7 @@ fn suite_game(w: &mut dyn Write, tier: &str, seed: u64, shard: usize, nshards: u
         for i in 0..n {
             let len = if i % 10 == 0 { cx.rng.below(4) } else { 2 + cx.rng.below(160) };
             if i % 8 == 3 { let cycles = 2 + cx.rng.below(2); dance_game(&mut cx, &start, cycles, 0); continue }
+            if i % 4 == 1 { let pf = PREFIXES[cx.rng.below(PREFIXES.len())]; let l = 10 + cx.rng.below(60); random_game_from(&mut cx, &start, l, 2, Some(pf)); continue }
             random_game(&mut cx, &start, len, if i % 3 == 0 { 0 } else { 4 });
         }
     }
